@@ -52,11 +52,19 @@ class P(Prop):
         ("TracklibVerif.Props.C19", "TV.C19.session_spec", "invariant over call sequences: after ANY calls, then a well-formed addCollectionToRaster(T), then any calls other than addCollectionToRaster (bands added later, ...), then computeAggregates with every band <feature>#<operator>: neither raises, and EVERY band, whatever it held before, holds its operator over exactly the values of the observations of T located in each cell, NaN -> the raster's own no-data value as it is at that call (constructor's novalue or the last setNoDataValue)"),
         ("TracklibVerif.Props.C19", "TV.C19.summarize_spec", "one-shot corollary, end to end: on every collection of non-empty tracks (a north-south / east-west line of observations or a single one included: one column / one row), distinct (feature, operator) pairs, every track having every feature, summarize never fails nor returns 0, builds a well-formed grid covering all observations with one band per pair in call order, each band = its operator over exactly the located values, NaN -> NO_DATA_VALUE (the no-data value of the raster summarize builds)"),
         ("TracklibVerif.Props.C19", "TV.C19.rat_floor_ceil", "the driver's Rat.floor / Rat.ceil are the Int.floor / Int.ceil of the theorems"),
+        ("TracklibVerif.Props.C19", "TV.C19.rounded_cell_in_grid", "in FLOATING-POINT arithmetic (the same model at rationals with every operation rounded; any monotone rounding with relative error u that keeps the integers up to the grid size): on the grid the constructor computes, every point of the extent, borders included, whatever rounding did to extent / resolution, gets a cell 0<=col<ncol, 0<=line<nrow (no IndexError, no wrap-around through a negative index) whose footprint contains it up to the rounding allowance ((x - xmin)(1 -+ u)^2 between the cell's edges; + u nrow ry for the lines)"),
+        ("TracklibVerif.Props.C19", "TV.C19.rounded_conservation", "conservation for floats: with any monotone rounding that keeps the integers up to the grid size (no error bound needed) the scatter never fails, every value lands in exactly one cell of the grid, sizes sum to the number of observations, any per-value weight is conserved"),
+        ("TracklibVerif.Props.C19", "TV.C19.scatter_stops_at_outside", "the scatter loop meeting an observation outside the extent: the observations before it are in their cells, TypeError there, nothing after it is scattered (the partial state addCollectionToRaster leaves in a feature's grid)"),
+        ("TracklibVerif.Props.C19", "TV.C19.compute_failing_bands", "a failing computeAggregates: the bands before the first band that raises are rewritten, that band and the following ones are exactly as they were, nothing else of the raster changes"),
     ]
     partial = []
-    open_statements = ["IEEE rounding in (x-xmin)/rx, margins and sums is outside the theorems (floor-ring statement); sampled by the transfer check on float streams",
-                       "the values a TypeError-failing addCollectionToRaster leaves behind and the bands a failing computeAggregates has already rewritten are modelled and compared "
-                       "(driver), not stated as theorems (the exceptions themselves are: add_collection_missing_feature, add_collection_outside)",
+    open_statements = ["IEEE rounding inside the cell operators (the running sums of co_sum / co_avg, the half-sum of co_median) is outside the theorems "
+                       "(aggregate_spec is a field statement); sampled by the transfer check on the float streams. The grid geometry under rounding is proved "
+                       "(rounded_cell_in_grid, rounded_conservation); that the margin-enlarged extent still contains the bounding box under rounding is not stated "
+                       "(it needs rnd to be idempotent on floats)",
+                       "how the partial grids of several features and tracks combine when addCollectionToRaster raises TypeError (the for trace: for afname: order) is "
+                       "modelled and compared (driver), not stated as a theorem; the single loop is (scatter_stops_at_outside), the exceptions are "
+                       "(add_collection_missing_feature, add_collection_outside), a failing computeAggregates is (compute_failing_bands)",
                        ]
     modelled = ("core/raster.py: Raster.__init__ (margin, ncol/nrow = max(1, ceil(..))), getCell, and the Raster object as a state machine (Model/RasterSession.lean): "
                 "the bands (AFMap.__init__ name / grid checks, addAFMap with and without grid, getNamesOfAFMap order), collectionValuesGrid (absent before the first collection), "
@@ -65,7 +73,8 @@ class P(Prop):
                 "insertion order, IndexError / AttributeError / KeyError / NameError at the first cell of a band, NaN -> the raster's current no-data value, None included — fix 279f7b2), get/setNoDataValue; "
                 "algo/summarising.py summarize (argument checks, bounding box, one addAFMap per (feature, operator) in call order via AFMap.getMeasureName, add, compute); "
                 "core/track.py hasAnalyticalFeature / getObsAnalyticalFeature for uid, x, y, idx and the track's own features; "
-                "core/utils.py co_count co_sum co_min co_max co_avg co_median; the collection's bounding box is modelled as min/max of the coordinates")
+                "core/utils.py co_count co_sum co_min co_max co_avg co_median; the collection's bounding box is modelled as min/max of the coordinates. "
+                "The geometry definitions (mkGrid, getCell, scatter) are also instantiated at rationals with every operation rounded (Lemmas/RasterRounded.lean: RQ rnd) for the floating-point theorems")
     trusted = ["math.floor / math.ceil / float.is_integer are taken as exact floor, ceiling and integrality of the float;",
                "the iteration order of the Python set of features in addCollectionToRaster is recomputed by the harness (same insertions, same process) and passed to the model; "
                "it only matters for the values left behind when the scatter raises;",
@@ -90,6 +99,15 @@ class P(Prop):
             "addCollectionToRaster, the footprint of every observation's cell and the values kept per cell, and after every computeAggregates EVERY band against the collection scattered LAST; "
             "direct calls of the cell operators in sequence on ONE list (every ordered pair on fixed lists, random sequences), checking the values and that the list "
             "is left unchanged. "
+            "NEAR-INTEGRAL FLOAT EXTENTS (Float): per axis a cell size from 14 values (0.1, 0.3, 1/3, 0.7, 60, ...), k = 1..6 cells, an origin (0.1, 0.2, -0.7, 1000.1, random, a multiple of the cell), "
+            "the upper bound lo + k r / (1 + 2 margin) moved by -3..+3 ulps: extent / resolution = k - few ulp | k | k + few ulp; observations ON the four borders / corners, within 2 ulps of a border, "
+            "within 2 ulps of every cell edge, anywhere; margins 0 (half of the cases) / 0.05 / 0.1 / 0.25 / 0.5; as summarize calls, as getCell probes on an explicit box (points 1 ulp outside too), as sessions on one raster. "
+            "MICRO-STEPS (Rat: dyadic steps 2^-14..2^-16, Float: 1.5e-5..9.5e-5): tracks that drift by steps smaller than the ENUCoords equality tolerance (1e-4) across a vertical edge, a horizontal edge, "
+            "a cell corner (both axes at once), forwards and backwards, stay on a spot (repeated fix), jump; feature values all different powers of two (a cell sum identifies its members), v#co_sum and uid#co_count always among the aggregates; "
+            "as summarize calls and as sessions (reuse / summarize-reuse / change). "
+            "ORACLE: every observation is located by exact rational arithmetic on the float values (column = the c with xmin + c rx <= x < xmin + (c+1) rx, closed on the outer border; lines from the top), independently of getCell; "
+            "on the float streams a coordinate within 2^-40 (relative to the largest magnitude among the coordinate, the extent bounds and the cell size) of an edge is accepted on either side (rounded_cell_in_grid bounds what a float formula of this kind can do by ~2^-51 of the extent); "
+            "getCell's answer, the values kept per cell and every band are checked against that location, observation by observation. "
             "non-trivial = a grid of at least 2 cells and at least 2 observations (sum), any (cell, op), a session that scatters and aggregates")
 
     def setup(self):
